@@ -64,7 +64,7 @@ impl SocketRecv for PullSocket {
                     // Ignore non-message frames (Command, Greeting) as PULL sockets are designed to only receive actual messages, not internal protocol frames.
                 }
                 Some((peer_id, Err(e))) => {
-                    self.backend.peer_disconnected(&peer_id);
+                    self.backend.peer_disconnected(&peer_id).await;
                     // Handle potential errors from the fair queue
                     return Err(e.into());
                 }
